@@ -6,6 +6,7 @@ package main
 import (
 	"encoding/hex"
 	"fmt"
+	"math"
 	"os"
 	"path/filepath"
 	"strconv"
@@ -97,7 +98,37 @@ func corrPrims(r *rng, c *caseOut, n int) {
 		}
 		s := rapid.VerifBufStream(ws, true)
 		var cmd, res string
-		switch r.intn(9) {
+		switch r.intn(12) {
+		case 9, 10, 11:
+			width, S, E := 64, uint(52), uint(11)
+			if r.chance(1, 3) {
+				width, S, E = 32, 23, 8
+			}
+			lo, hi := r.frange(S, E)
+			cmd = fmt.Sprintf("float %d %d %d", width, lo, hi)
+			res = safely(func() string {
+				var fmin, fmax float64
+				if width == 32 {
+					fmin, fmax = float64(math.Float32frombits(uint32(lo))), float64(math.Float32frombits(uint32(hi)))
+				} else {
+					fmin, fmax = math.Float64frombits(lo), math.Float64frombits(hi)
+				}
+				sg, e, si, sf := rapid.VerifGenFloatRange(s, fmin, fmax, S)
+				var b uint64
+				if width == 32 {
+					b = uint64(math.Float32bits(rapid.VerifFloat32FromParts(sg, e, si, sf)))
+				} else {
+					b = math.Float64bits(rapid.VerifFloat64FromParts(sg, e, si, sf))
+				}
+				if b == lo || b == hi {
+					c.tag("float-edge")
+				}
+				if si == 0 && sf == 0 {
+					c.tag("float-pow2")
+				}
+				return fmt.Sprintf("%v,%d,%d,%d,%d", sg, e, si, sf, b)
+			})
+			c.tag(fmt.Sprintf("float%d", width))
 		case 0:
 			which := []string{"half", "never", "always"}[r.intn(3)]
 			p := map[string]float64{"half": 0.5, "never": 0, "always": 1}[which]
